@@ -35,7 +35,8 @@ func (e *aEntry) item() ap.Item {
 	panic("entry kind")
 }
 
-func (e *aEntry) keyed() bool { return e != nil && e.K != "other" }
+// keyed: the entry names an addressee (it has an id or link); an embedded object without an id does not
+func (e *aEntry) keyed() bool { return e != nil && e.K != "other" && e.ID != "" }
 
 type aValue struct {
 	Type     string    `json:"type"`
@@ -340,6 +341,7 @@ var c10Pool = []*aEntry{
 	{"iri", "https://example.com/a"}, {"iri", "http://example.com/a"}, {"iri", "https://EXAMPLE.com/a/"}, {"obj", "https://example.com/a"},
 	{"iri", "https://example.com/b"}, {"obj", "https://example.com/b"}, {"iri", "https://www.w3.org/ns/activitystreams#Public"},
 	{"iri", "https://example.com/c"}, {"link", "https://example.com/l"}, nil, {"other", ""},
+	{"obj", ""}, // an embedded actor without an id: names nobody, is left alone (also when a list holds two of them)
 }
 
 func c10Case(c *Ctx, v aValue) {
